@@ -2,6 +2,8 @@
 package main
 
 import (
+	"encoding"
+	"encoding/json"
 	"errors"
 	"fmt"
 	"regexp"
@@ -616,6 +618,126 @@ func probe(a listArg) (kind, detail string) {
 	return "", ""
 }
 
+// ------------------------------------------------------------ further case shapes (hooks that change the case, interface-typed T, a type with its own Equal)
+// E has an Equal method that is coarser than structural equality (it ignores Label).
+type E struct {
+	Payload string
+	Label   string
+}
+
+func (e E) Equal(o E) bool { return e.Payload == o.Payload }
+func (e *E) set(d []byte) error {
+	e.Payload, e.Label = string(d), "set by unmarshal"
+	return nil
+}
+func (e *E) UnmarshalText(d []byte) error   { return e.set(d) }
+func (e *E) UnmarshalBinary(d []byte) error { return e.set(d) }
+func (e *E) UnmarshalJSON(d []byte) error   { return e.set(d) }
+
+type shapeArg struct {
+	Shape  string `json:"shape"`
+	Helper string `json:"helper"`
+}
+
+var shapes = []string{"before_hook_repairs_value", "before_hook_spoils_value", "before_hook_replaces_pointer", "interface_typed_T_satisfied", "interface_typed_T_unmet", "own_Equal_method_hides_difference", "own_Equal_method_equal_values"}
+
+// probeShape: each shape is a one-case list whose verdict is known by construction.
+func probeShape(a shapeArg) (string, string) {
+	rec := &recorder{}
+	mustFail := false
+	m := strings.HasPrefix(a.Helper, "Marshal")
+	right, wrong := V{Script: sRight, Payload: rightPayload}, V{Script: sWrong, Payload: rightPayload}
+	escaped := func() (p any) {
+		defer func() { p = recover() }()
+		switch a.Shape {
+		case "before_hook_repairs_value", "before_hook_spoils_value": // value-typed T: the Before hook assigns c.Value; what is marshalled is the value after the hook
+			if !m {
+				return nil
+			}
+			first, second := wrong, right
+			if a.Shape == "before_hook_spoils_value" {
+				first, second, mustFail = right, wrong, true
+			}
+			switch a.Helper {
+			case "MarshalText":
+				test.MarshalText(rec, []test.CaseText[V]{{Value: first, Data: rightPayload, Before: func(_ int, c *test.CaseText[V]) error { c.Value = second; return nil }}})
+			case "MarshalBinary":
+				test.MarshalBinary(rec, []test.CaseBinary[V]{{Value: first, Data: []byte(rightPayload), Before: func(_ int, c *test.CaseBinary[V]) error { c.Value = second; return nil }}})
+			default:
+				test.MarshalJSON(rec, []test.CaseJSON[V]{{Value: first, Data: rightPayload, Before: func(_ int, c *test.CaseJSON[V]) error { c.Value = second; return nil }}})
+			}
+		case "before_hook_replaces_pointer": // pointer-typed T: the hook puts another pointer into the case
+			if !m {
+				return nil
+			}
+			first, second := &P{Script: sWrong, Payload: rightPayload}, &P{Script: sRight, Payload: rightPayload}
+			switch a.Helper {
+			case "MarshalText":
+				test.MarshalText(rec, []test.CaseText[*P]{{Value: first, Data: rightPayload, Before: func(_ int, c *test.CaseText[*P]) error { c.Value = second; return nil }}})
+			case "MarshalBinary":
+				test.MarshalBinary(rec, []test.CaseBinary[*P]{{Value: first, Data: []byte(rightPayload), Before: func(_ int, c *test.CaseBinary[*P]) error { c.Value = second; return nil }}})
+			default:
+				test.MarshalJSON(rec, []test.CaseJSON[*P]{{Value: first, Data: rightPayload, Before: func(_ int, c *test.CaseJSON[*P]) error { c.Value = second; return nil }}})
+			}
+		case "interface_typed_T_satisfied", "interface_typed_T_unmet": // the list is instantiated with the interface type itself
+			v := right
+			if a.Shape == "interface_typed_T_unmet" {
+				v, mustFail = wrong, true
+			}
+			in := scriptNames[v.Script] + ":" + rightPayload
+			switch a.Helper {
+			case "MarshalText":
+				test.MarshalText(rec, []test.CaseText[encoding.TextMarshaler]{{Value: v, Data: rightPayload}, {Value: &P{Script: v.Script, Payload: rightPayload}, Data: rightPayload}})
+			case "MarshalBinary":
+				test.MarshalBinary(rec, []test.CaseBinary[encoding.BinaryMarshaler]{{Value: v, Data: []byte(rightPayload)}, {Value: &P{Script: v.Script, Payload: rightPayload}, Data: []byte(rightPayload)}})
+			case "MarshalJSON":
+				test.MarshalJSON(rec, []test.CaseJSON[json.Marshaler]{{Value: v, Data: rightPayload}, {Value: &P{Script: v.Script, Payload: rightPayload}, Data: rightPayload}})
+			case "UnmarshalText":
+				test.UnmarshalText(rec, []test.CaseText[encoding.TextUnmarshaler]{{Value: &P{Payload: rightPayload}, Data: in}}, nil)
+			case "UnmarshalBinary":
+				test.UnmarshalBinary(rec, []test.CaseBinary[encoding.BinaryUnmarshaler]{{Value: &P{Payload: rightPayload}, Data: []byte(in)}}, nil)
+			default:
+				test.UnmarshalJSON(rec, []test.CaseJSON[json.Unmarshaler]{{Value: &P{Payload: rightPayload}, Data: in}}, nil)
+			}
+		case "own_Equal_method_hides_difference", "own_Equal_method_equal_values": // the unmarshalled value differs from the expected one in a field E.Equal ignores
+			if m {
+				return nil
+			}
+			want := E{Payload: "data", Label: "expected label"}
+			mustFail = true
+			if a.Shape == "own_Equal_method_equal_values" {
+				want, mustFail = E{Payload: "data", Label: "set by unmarshal"}, false
+			}
+			switch a.Helper {
+			case "UnmarshalText":
+				test.UnmarshalText(rec, []test.CaseText[E]{{Value: want, Data: "data"}}, nil)
+			case "UnmarshalBinary":
+				test.UnmarshalBinary(rec, []test.CaseBinary[E]{{Value: want, Data: []byte("data")}}, nil)
+			default:
+				test.UnmarshalJSON(rec, []test.CaseJSON[E]{{Value: want, Data: "data"}}, nil)
+			}
+		}
+		return nil
+	}()
+	if escaped != nil {
+		return "panic_escaped", fmt.Sprintf("%s, shape %s: a panic escaped: %v", a.Helper, a.Shape, escaped)
+	}
+	if mustFail && !rec.failed() {
+		return "failure_not_reported[" + a.Shape + "]", fmt.Sprintf("%s, shape %s: the case is not satisfied (differing data or value) but no failure was reported", a.Helper, a.Shape)
+	}
+	if !mustFail && rec.failed() {
+		msg := ""
+		if len(rec.errors) > 0 {
+			msg = rec.errors[0]
+			if len(msg) > 300 {
+				msg = msg[:300]
+			}
+		}
+		return "spurious_failure[" + a.Shape + "]", fmt.Sprintf("%s, shape %s: every case is satisfied but a failure was reported: %s", a.Helper, a.Shape, msg)
+	}
+	return "", ""
+}
+
 var helpers = []string{"MarshalText", "UnmarshalText", "MarshalBinary", "UnmarshalBinary", "MarshalJSON", "UnmarshalJSON"}
 
 func main() {
@@ -682,6 +804,20 @@ func main() {
 				w.Outcome("nil Value")
 			})
 		})
+		pShape := mc.NewProbe(r, "case_shape", nil, probeShape)
+		r.Phase(fmt.Sprintf("further case shapes x 6 helpers: %v", shapes), "complete for the listed shapes", func() {
+			r.Serial(func(w *mc.W) {
+				for _, sh := range shapes {
+					for _, h := range helpers {
+						w.Point()
+						w.NonTrivial()
+						pShape.Do(w, shapeArg{Shape: sh, Helper: h})
+					}
+				}
+				w.Outcome("case shapes")
+			})
+		})
+		r.Sample("case_shape", shapeArg{Shape: "interface_typed_T_satisfied", Helper: "MarshalText"})
 		r.Sample("single", listArg{Helper: "UnmarshalText", Type: "V", Cases: []caseSpec{{0, hOK, hNil, pNil, sWrong, false}}})
 		// lists up to length 3 over a reduced alphabet: pass, every failure reason, other direction
 		red := []caseSpec{
